@@ -74,6 +74,26 @@ def chk_ws(hexs):
                            str(s)[:120], hd.mnemonic_from_entropy(ent) if ent is not None and len(ent) in SIZES else "an exception")]
 
 
+def chk_drawn(words, answer_hex, entry):
+    """the generating entry points (entropy drawn from the OS source, here scripted): whatever bytes are drawn, the sentence
+    has the requested number of words, decodes through the official list and carries a VALID checksum"""
+    from .c08 import one_creation
+    r = one_creation(entry, words, bytes.fromhex(answer_hex))
+    if r["st"] != "ok":
+        return "violation", [V("%s:%s:drawn-entropy:raised" % (P, entry), "%d words with OS answer %s...: %s" % (words, answer_hex[:16], r["mnemonic"]))]
+    m = r["mnemonic"]
+    try:
+        ent, ok = hd.mnemonic_decode(m)
+    except ValueError as e:
+        return "violation", [V("%s:%s:drawn-entropy:undecodable" % (P, entry), "sentence %r: %s" % (m, e))]
+    if len(m.split(" ")) != words or not ok or len(ent) * 8 != words * 32 // 3:
+        return "violation", [V("%s:%s:drawn-entropy:%s" % (P, entry, "bad-checksum" if not ok else "wrong-length"),
+                               "%d words requested, OS answer %s...: sentence %r (%d words, checksum %s)" % (words, answer_hex[:16], m, len(m.split(" ")), "valid" if ok else "INVALID"))]
+    if hd.mnemonic_from_entropy(ent) != m:
+        return "violation", [V("%s:%s:drawn-entropy:not-canonical" % (P, entry), "sentence %r is not the encoding of its own entropy" % m)]
+    return "drawn-sentence-valid-%d" % words, []
+
+
 def slot_entropy(size, slot, value):
     """entropy whose 11-bit field `slot` holds `value` (last slot: only its entropy bits), zero elsewhere"""
     ent_bits = size * 8
@@ -136,6 +156,8 @@ def execute(case):
                 if slot < nwords - 1 and w != hd.WORDS[v]:
                     res = ("violation", [V("%s:word_list:slot-value:wrong-word" % P, "slot %d value %d" % (slot, v), w, hd.WORDS[v])])
             acc(res, {"k": "enc", "ent": ent.hex()})
+    elif k == "drawn":
+        acc(chk_drawn(case["words"], case["answer"], case["entry"]), case)
     elif k == "rej":
         acc(chk_reject(case["hex"], case["n"]), case)
     elif k == "ws":
@@ -204,6 +226,17 @@ def run(ctx):
                 need.discard(last)
                 cases.append({"k": "enc", "ent": ent.hex()})
     ctx.product("last-word-every-value", cases, execute, chunk=64)
+    # the GENERATING entry points with the drawn bytes on their corners (leading zero bytes, all-zero, all-one, top bit only, every
+    # value of the first byte): the sentence must still be a valid encoding
+    cases = []
+    for words, size in ((12, 16), (15, 20), (18, 24), (21, 28), (24, 32)):
+        tails = hashlib.sha256(b"C04-drawn-%d-%d" % (ctx.seed, words)).digest() * 2
+        answers = [b"\x00" * 64, b"\xff" * 64, b"\x80" + b"\x00" * 63, b"\x00" * 63 + b"\x01"] + [b"\x00" * z + tails[:64 - z] for z in (1, 2, 3, 4, 8)]
+        answers += [bytes([b]) + tails[:63] for b in (range(256) if words in (12, 24) or ctx.thorough else (0, 1, 0x7f, 0x80, 0xff))]
+        for entry in ("mnemonic_from_entropy_bits", "BaseWallet.new_wallet"):
+            for a in (answers if entry == "mnemonic_from_entropy_bits" else answers[:9]):
+                cases.append({"k": "drawn", "words": words, "answer": a.hex(), "entry": entry})
+    ctx.product("drawn-entropy-corners", cases, execute, chunk=16)
     slot_sizes = SIZES if ctx.thorough else (32, 16)
     cases = [{"k": "slot", "size": s, "slot": w} for s in slot_sizes for w in range((s * 8 + s * 8 // 32) // 11)]
     ctx.product("word-slot-x-word-value", cases, execute, chunk=2)
